@@ -181,6 +181,18 @@ def run_probe():
                 out.append(probe.J(probe.obs_rh(c, t + "/" + v)))
     for text in (TEXT, V2B + " " + V31B_RE + " " + V31B, "nothing here", V4A):
         out.append(probe.J(probe.obs_text(text)))
+    # answer streams made of the legal tokens of ALL versions: every question skips what it must
+    # refuse, so a value leaking in from another version (or an earlier session) shows in the result
+    union = []
+    for fam in ("3.1", "4.0", "2"):
+        for m, vals in T.METRICS[fam].items():
+            for v in vals:
+                if v not in union:
+                    union.append(v)
+    for fam in T.FAMILIES:
+        n = len(T.METRICS[fam]) + 1
+        out.append(probe.J(_builder(fam, True, (union[::-1] + union) * n)))
+        out.append(probe.J(_builder(fam, False, [t.lower() for t in union] * n)))
     out.append(probe.J(_builder("3.0", True, ["N", "L", "N", "N", "U", "H", "H", "H"] + [""] * 14)))
     out.append(probe.J(_builder("4.0", False, ["N", "L", "N", "N", "N", "H", "H", "H", "H", "H", "H"])))
     out.append(probe.J(probe.obs_cli(["-j", "-v", V31])))
